@@ -698,6 +698,43 @@ def r8_roundtrip(L, repo):
                     continue        # (single decodes are decided above; a sequence that does not fold adds nothing)
                 L.require("C01.R8", FD, fn_, "%s decoded into an object that held `%s` before: every field is the new message's (`%s`)" % (cls, ta, tb),
                           bb, got)
+    # ... nor on what ANOTHER decoder object (of either class) decoded before: class-level and module-level state (a latch
+    # set by a legacy-padded datagram, a lookup memo) is shared by all message objects of the process
+    def _legacy_first(lst):
+        a = [x for x in lst if "legacy" in x[0]][:2]
+        b = []
+        seen_ = set()
+        for x in lst:
+            k_ = (x[2].get("ver"), len(x[1]))
+            if "legacy" not in x[0] and k_ not in seen_:
+                seen_.add(k_)
+                b.append(x)
+        return a + b[:3]
+    for cls_a, cls_b in (("RxMsg", "TxMsg"), ("TxMsg", "RxMsg"), ("RxMsg", "RxMsg"), ("TxMsg", "TxMsg")):
+        if cls_a not in encoded or cls_b not in encoded:
+            continue
+        cia, cib = repo.need_class("data_msg", cls_a), repo.need_class("data_msg", cls_b)
+        for ta, da, _ba, _ka in _legacy_first(encoded[cls_a]):
+            for tb, db, bb, kb in _legacy_first(encoded[cls_b])[2:] if cls_a == cls_b else _legacy_first(encoded[cls_b]):
+                if "legacy" in tb or (cls_a == cls_b and "legacy" not in ta):
+                    continue        # (same class, both unpadded: decided above on one object)
+                try:
+                    ea = decode(cia, da)
+                    eb = Ev(repo, cib.mod, env={k_: v_ for k_, v_ in ea.env.items() if not k_.startswith("self.") and "." in k_}, self_cls=cib)
+                    eb.gstate = ea.gstate
+                    eb.ignore_calls = ("log.", "logging.")
+                    try:
+                        c0, i0 = repo.find_method(cib, "__init__")
+                        eb.call_func(i0, c0.mod, eb._bindargs(i0, ["<self>"], {}), self_cls=cib, writeback=True)
+                    except (Unknown, Raised, TypeError, KeyError, AttributeError):
+                        pass
+                    got = fields_of(decode(cib, db, into=eb), kb)
+                except Unknown:
+                    continue
+                except Raised as ex:
+                    got = "decoding raises %s" % ex.cls
+                L.require("C01.R8", FD, cls_b + ".parse_msg", "%s `%s` decoded after another object decoded the %s `%s`: every field is the message's own" % (
+                    cls_b, tb, cls_a, ta), bb, got)
     # The property quantifies over the messages THE TOOLKIT accepts as valid, not over the protocol ranges: whatever
     # validate() accepts beyond them (C13 decides whether it should) has to survive its own encoding as well.
     for cls, title, flds in _accepted_extras(L, repo, members, HYPER):
